@@ -355,8 +355,9 @@ pub fn all(full: bool) -> Vec<Config> {
     v
 }
 
-/// Configurations with literal parameter sets that exercise code no shipped record reaches.  Kept apart from [`all`]: the
-/// phase-equilibrium properties draw their systems from [`all`] and make claims only about shipped records.
+/// Further configurations for the properties about the Helmholtz energy function itself (C01, C02, C09, C13): literal parameter
+/// sets that exercise code no shipped record reaches, boundary values, and shipped records with rarely used groups.  Kept apart
+/// from [`all`]: the phase-equilibrium properties draw their systems from [`all`].
 pub fn literal() -> Vec<Config> {
     use ResidualModel as M;
     let mut v = Vec::new();
@@ -377,6 +378,8 @@ pub fn literal() -> Vec<Config> {
         let p = ElectrolytePcSaftParameters::from_records(recs, Some(b)).unwrap();
         v.push(cfg("epcsaft_literal_kij_of_t", M::ElectrolytePcSaft(ElectrolytePcSaft::new(Arc::new(p))), 2, 350.0, true));
     }
+    // gc-PC-SAFT with a dipolar group (shipped records; the dipole term of the heterosegmented model)
+    v.push(cfg("gcpcsaft_acetone_hexane", M::GcPcSaft(gc_pcsaft(&["acetone", "hexane"])), 2, 500.0, true));
     // SAFT-VR Mie at the boundary value m = 1 exactly (shipped record; the chain / monomer paths are chosen by comparing m with 1)
     v.push(cfg("saftvrmie_methane_m1", M::SaftVRMie(saftvrmie(&["methane"])), 1, 190.0, true));
     // SAFT-VRQ Mie with mixed Feynman-Hibbs orders (thorough tier: ~10k instructions)
